@@ -68,7 +68,7 @@ var (
 				},
 				ExtraImports:        extraImports,
 				Capitalizations:     capitalizations,
-				DefaultOutputName:   defaultOutput,
+				DefaultOutputName:   cleanOutputName(defaultOutput),
 				DefaultPackageName:  defaultPackage,
 				SchemaMappings:      []generator.SchemaMapping{},
 				ResolveExtensions:   resolveExtensions,
@@ -86,7 +86,8 @@ var (
 					mapping.PackageName = defaultPackage
 				}
 				if s, ok := schemaOutputMap[id]; ok {
-					mapping.OutputName = s
+					// Two spellings of one path are one output file.
+					mapping.OutputName = cleanOutputName(s)
 				}
 				if s, ok := schemaRootTypeMap[id]; ok {
 					mapping.RootType = s
@@ -201,6 +202,15 @@ func stringSliceToStringMap(s []string) (map[string]string, error) {
 	}
 
 	return result, nil
+}
+
+// cleanOutputName normalises the spelling of an output path ("-" and "" keep their meaning).
+func cleanOutputName(name string) string {
+	if name == "" || name == "-" {
+		return name
+	}
+
+	return filepath.Clean(name)
 }
 
 func allKeys(in ...map[string]string) []string {
